@@ -464,6 +464,30 @@ func c02dRuntime(c *Ctx, a *absVariant, gDepth map[string]map[string]int) {
 			r.Bad("C02-d", "G/T."+p.kind+":child-scope-depth", vn, w, fmt.Sprintf("builder visits the child at scope depth +%d, the runtime evaluates it at depth %v: generated methods would read labels from a different map than the one they are bound in", gd, ds))
 		}
 	}
+	// a new scope starts empty: pushV installs a fresh map or reuses one proven empty; popV shortens by one
+	if pv, pp := a.V.Func("parser", "pushV"), a.V.Func("parser", "popV"); pv != nil && pp != nil {
+		why := freshTopSlot(pv, "vstack")
+		grow := false
+		ast.Inspect(pv.Body, func(n ast.Node) bool {
+			if as, ok := n.(*ast.AssignStmt); ok && nospace(as.Lhs[0]) == "p.vstack" {
+				if rr := nospace(as.Rhs[0]); rr == "append(p.vstack,nil)" || rr == "p.vstack[:len(p.vstack)+1]" {
+					grow = true
+				}
+			}
+			return true
+		})
+		shrink := false
+		ast.Inspect(pp.Body, func(n ast.Node) bool {
+			if as, ok := n.(*ast.AssignStmt); ok && nospace(as.Lhs[0]) == "p.vstack" && nospace(as.Rhs[0]) == "p.vstack[:len(p.vstack)-1]" && len(guardsOf(pp.Body, as.Pos())) == 0 {
+				shrink = true
+			}
+			return true
+		})
+		r.Check(why == "" && grow && shrink, "C02-d", "T.pushV/popV:new-scope-is-empty", vn, a.V.Where(pv.Pos()), "push grows by one and leaves an empty map on top (fresh, or reused only when proven empty); pop shortens by one",
+			fmt.Sprintf("grow=%t shrink=%t %s: labels of an earlier scope would be visible in a later one", grow, shrink, why))
+	} else {
+		r.Fatal("variant %s: pushV/popV missing", vn)
+	}
 	// label binding in the enclosing scope
 	if res := a.Res["parseLabeledExpr"]; res != nil {
 		param := res.Fn.Type.Params.List[0].Names[0].Name
